@@ -23,7 +23,8 @@ RULE = ('random import graphs (generator of C17: cycles, diamonds, sub-directori
         'the failing file is an import (direct or transitive)')
 REQUIRED = {'failed_attempts': 300, 'phase_syntax': 30, 'phase_unresolved': 30, 'phase_objproc': 30, 'phase_modelproc': 30,
             'fault_in_main': 30, 'fault_in_direct_import': 30, 'fault_in_transitive_import': 20, 'repaired_reloads': 100,
-            'global_repo_attempts': 100, 'string_main_with_globalrepo_provider_attempts': 50}
+            'global_repo_attempts': 100, 'string_main_with_globalrepo_provider_attempts': 50,
+            'caller_repo_cases': 30, 'caller_repo_cases_with_user_class_root': 10}
 PHASES = ['syntax', 'unresolved', 'objproc', 'modelproc']
 
 
@@ -100,12 +101,122 @@ def globalrepo_string_main(ctx, i, rep):
         shutil.rmtree(tmp, ignore_errors=True)
 
 
+CALLER_GRAMMAR = """
+Model: things*=Thing uses*=Use;
+Thing: 'thing' name=ID;
+Use: 'use' ref=[Thing|FQN];
+FQN: ID('.'ID)*;
+"""
+
+
+def caller_owned_repository(ctx, i, rep):
+    """Models loaded into a repository that the CALLER owns (GlobalRepo.load_models_in_model_repo(global_model_repo=...)),
+    the metamodel has none of its own; with and without a user class for the model object. A failing group of files must
+    leave that repository as it was; after the repair the group loads completely and is linked to the cached models."""
+    from textx import metamodel_from_str, TextXError, register_language, clear_language_registrations
+    from textx.scoping import GlobalModelRepository
+    import textx.scoping.providers as sp
+    r = ctx.rng('caller', i)
+    tmp = os.path.realpath(tempfile.mkdtemp(prefix='tvc18c_'))
+    try:
+        os.mkdir(os.path.join(tmp, 'base'))
+        os.mkdir(os.path.join(tmp, 'proj'))
+        user_root = r.random() < 0.6
+        classes = []
+        if user_root:
+            class Model:
+                def __init__(self, things=None, uses=None):
+                    self.things = things or []
+                    self.uses = uses or []
+            classes = [Model]
+            ctx.count('caller_repo_cases_with_user_class_root')
+        nproj = r.randint(2, 4)
+        files = {'base/x.m': 'thing x1 thing x2\n'}
+        for k in range(nproj):
+            tgt = r.choice(['x1', 'x2'] + ['p%d' % j for j in range(nproj)])
+            files['proj/f%d.m' % k] = 'thing p%d\nuse %s\n' % (k, tgt)
+        bad = 'proj/f%d.m' % r.randrange(nproj)
+        phase = r.choice(['unresolved', 'unresolved', 'syntax', 'objproc'])
+        fault = {'syntax': '}}} garbage\n', 'unresolved': 'use nowhere\n', 'objproc': 'thing boom\n'}[phase]
+        for f, t in files.items():
+            with open(os.path.join(tmp, f), 'w') as fh:
+                fh.write(t + (fault if f == bad else ''))
+
+        def objproc(o):
+            if o.name == 'boom':
+                raise TextXError('object processor failure')
+        prov = (sp.FQNGlobalRepo if r.random() < 0.5 else sp.PlainNameGlobalRepo)()
+        mm = metamodel_from_str(CALLER_GRAMMAR, classes=classes)
+        mm.register_scope_providers({'*.*': prov})
+        mm.register_obj_processors({'Thing': objproc})
+        clear_language_registrations()
+        register_language('tvc18-dsl', pattern='*.m', metamodel=mm)
+        repo = GlobalModelRepository()
+        wit = {'files': files, 'failing_file': bad, 'phase': phase, 'user_class_for_model_object': user_root,
+               'provider': type(prov).__name__}
+        ctx.count('caller_repo_cases')
+        ctx.case(('caller-repo', nproj, phase, user_root, type(prov).__name__), True, wit if ctx.evaluations < 3 else None)
+
+        def names():
+            return sorted(os.path.relpath(k, tmp) for k in repo.all_models.filename_to_model)
+        prov.register_models(os.path.join(tmp, 'base', '*.m'))
+        prov.load_models_in_model_repo(global_model_repo=repo)
+        xm = repo.all_models.filename_to_model.get(os.path.join(tmp, 'base', 'x.m'))
+        if names() != ['base/x.m'] or xm is None:
+            raise RuntimeError('harness: first load gives %r' % names())
+        prov.register_models(os.path.join(tmp, 'proj', '*.m'))
+        try:
+            prov.load_models_in_model_repo(global_model_repo=repo)
+            ctx.violation(None, 'caller-owned repository: the group with the faulty file %s loaded' % bad, wit, rep)
+            return
+        except TextXError:
+            pass
+        ctx.count('failed_attempts')
+        if names() != ['base/x.m'] or repo.all_models.filename_to_model.get(os.path.join(tmp, 'base', 'x.m')) is not xm:
+            ctx.violation(None, 'after a failed load (%s fault in %s%s) the repository owned by the caller holds %r, before the load it '
+                          'held [\'base/x.m\']' % (phase, bad, ', user class for the model object' if user_root else '', names()), wit, rep)
+            return
+        with open(os.path.join(tmp, bad), 'w') as fh:
+            fh.write(files[bad])
+        try:
+            prov.load_models_in_model_repo(global_model_repo=repo)
+        except TextXError as e:
+            ctx.violation(None, 'caller-owned repository: reload after repairing %s fails: %s' % (bad, str(e)[:120]), wit, rep)
+            return
+        ctx.count('repaired_reloads')
+        if names() != sorted(files):
+            ctx.violation(None, 'caller-owned repository: after the repaired reload it holds %r' % names(), wit, rep)
+            return
+        things = {}
+        for f in files:
+            mo = repo.all_models.filename_to_model[os.path.join(tmp, f)]
+            if not getattr(mo, 'things', None):
+                ctx.violation(None, 'caller-owned repository: %s is not a complete model after the repaired reload' % f, wit, rep)
+                return
+            for t in mo.things:
+                things[t.name] = t
+        for f in files:
+            mo = repo.all_models.filename_to_model[os.path.join(tmp, f)]
+            for u, line in zip(mo.uses, [l for l in files[f].splitlines() if l.startswith('use ')]):
+                if u.ref is not things[line.split()[1]]:
+                    ctx.violation(None, 'caller-owned repository: %r of %s is not linked to the element of the stored model' % (line, f), wit, rep)
+                    return
+        if repo.all_models.filename_to_model.get(os.path.join(tmp, 'base', 'x.m')) is not xm:
+            ctx.violation(None, 'caller-owned repository: the model of the first load was replaced', wit, rep)
+    finally:
+        from textx import clear_language_registrations as _c
+        _c()
+        shutil.rmtree(tmp, ignore_errors=True)
+
+
 def one(ctx, i, rep=None):
     from textx import metamodel_from_str, TextXError
     import textx.scoping.providers as sp
     rep = rep or {'i': i}
     if i % 5 == 3:
         return globalrepo_string_main(ctx, i, rep)
+    if i % 5 == 1:
+        return caller_owned_repository(ctx, i, rep)
     r = ctx.rng('d', i)
     global_repo = (i % 3 != 2)
     prov = ['plain', 'fqn'][i % 2]
